@@ -12,8 +12,13 @@ Spec == Init /\ [][Next]_l
 E == Trace[l]
 O == Trace[l - E.i]
 IsCall == E.ev = "SessCall"
-KnownEvent == E.ev \in {"SessStart", "SessCall"}
+KnownEvent == E.ev \in {"SessStart", "SessCall", "EditSessStart", "EditSessCall"}
 Cl_ArgsUnchanged == IsCall => (E.after = E.before /\ E.before = O.objects)
 Cl_BuiltinsUnchanged == IsCall => (E.builtins_after = E.builtins_before /\ E.builtins_before = O.builtins)
 Cl_SameAsFresh == IsCall => E.result = E.fresh
+\* sessions with the caller's own in-place edits (SessionEdit.tla): a call keeps what the objects hold - which is what a pristine
+\* process holds after building the same objects and applying the same edits - and answers as that pristine process does
+IsECall == E.ev = "EditSessCall"
+Cl_CallsKeepHeld == IsECall => (E.after = E.before /\ E.before = E.expected /\ E.builtins_after = O.builtins)
+Cl_SameAsFreshOnHeld == IsECall => E.result = E.fresh
 =============================================================================
